@@ -19,7 +19,8 @@ RULE = ('seeded schedules as in C09 with the trajectory sampling in place of the
         'sampling interval up to 2x the span; measurements None / [] / lists; both altitude modes; non-trivial = anything but '
         '(time_step >= 100x sampling interval with on-grid epochs); distinct = distinct seeds'
         ' Round 3: every third schedule is run a second time with the same measurement / model objects and judged again.'
-        ' Round 4: the two sensor triads configured independently (scale / misalignment on one of them only, one triad without a model); records of 2..4 rows.')
+        ' Round 4: the two sensor triads configured independently (scale / misalignment on one of them only, one triad without a model); records of 2..4 rows.'
+        ' Round 5: nominal and computed trajectory with the same stamps under different index names; measurement rows not in time order; sensors listed in any order.')
 ASSUMPTIONS = ['termination is decided as bounded progress: while-header visits <= 2 (rows + epochs in span) + 4, never by wall clock',
                'stamping of innovation rows with the sample time is not demanded by C10 (the filter stamps them with the row time)']
 REQUIRED_OBS = ['reruns_with_same_objects', 'schedules_with_permuted_tables', 'schedules_with_tiny_record', 'trajectories_with_different_index_names', 'schedules_with_unsorted_measurement_rows', 'schedules_with_independent_triad_models', 'runs_completed', 'loop_iterations', 'hit_events', 'correct_events', 'schedules_with_clusters', 'schedules_with_gaps',
